@@ -360,11 +360,12 @@ Lemma run_cache allow a rq st ops :
   rs_cache (snd (run allow a rq st ops)) = cache_after (rs_cache st) ops.
 Proof.
   revert st; induction ops as [|s r IH]; intros st; cbn; [reflexivity|].
-  destruct s as [o| |]; cbn.
+  destruct s as [o| | |tb]; cbn.
   - destruct (cache_op (rs_cache st) o) as [[c' fd] cr] eqn:E.
     destruct (rs_phase st) as [| | |]; cbn; rewrite IH; cbn; reflexivity.
   - destruct (rs_phase st); cbn; rewrite IH; reflexivity.
   - destruct (rs_phase st); cbn; rewrite IH; reflexivity.
+  - rewrite IH. reflexivity.
 Qed.
 
 Lemma run_cons allow a rq st s r :
@@ -398,10 +399,11 @@ Proof.
   revert c; induction ops as [|s r IH]; intros c Hn; cbn.
   - split; [constructor|reflexivity].
   - assert (Hr : no_sub r) by (intros H; apply Hn; now right).
-    destruct s as [o| |]; cbn.
+    destruct s as [o| | |tb]; cbn.
     + destruct (cache_op c o) as [[c' fd] cr]. cbn. destruct (IH c' Hr) as [H1 H2].
       split; [constructor; [reflexivity|assumption]|assumption].
     + exfalso. apply Hn. now left.
+    + destruct (IH c Hr) as [H1 H2]. split; [constructor; [reflexivity|assumption]|assumption].
     + destruct (IH c Hr) as [H1 H2]. split; [constructor; [reflexivity|assumption]|assumption].
 Qed.
 
@@ -412,9 +414,10 @@ Lemma run_ended allow a rq c st ops :
 Proof.
   revert c; induction ops as [|s r IH]; intros c; cbn.
   - split; [constructor|reflexivity].
-  - destruct s as [o| |]; cbn.
+  - destruct s as [o| | |tb]; cbn.
     + destruct (cache_op c o) as [[c' fd] cr]. cbn. destruct (IH c') as [H1 H2].
       split; [constructor; [reflexivity|assumption]|assumption].
+    + destruct (IH c) as [H1 H2]. split; [constructor; [reflexivity|assumption]|assumption].
     + destruct (IH c) as [H1 H2]. split; [constructor; [reflexivity|assumption]|assumption].
     + destruct (IH c) as [H1 H2]. split; [constructor; [reflexivity|assumption]|assumption].
 Qed.
@@ -447,10 +450,11 @@ Lemma run_poll_phase allow rq pf c ops :
   = RS (cache_after c ops) (PPoll (g_target pf) rq).
 Proof.
   intros Hp Hok. revert c; induction ops as [|s r IH]; intros c; cbn; [reflexivity|].
-  destruct s as [o| |]; cbn.
+  destruct s as [o| | |tb]; cbn.
   - destruct (cache_op c o) as [[c' fd] cr]. cbn. apply IH.
   - apply IH.
   - rewrite (snapshot_ok_snd c rq pf Hp Hok). cbn. apply IH.
+  - apply IH.
 Qed.
 
 Lemma run_poll_step allow rq pf c ops1 ops2 :
@@ -628,11 +632,12 @@ Lemma run_step_allowed allow a rq st s n :
   In (RUpd n) (snd (fst (run_step allow a rq st s))) ->
   chk allow a (g_target (n_prefix n)) = true.
 Proof.
-  destruct st as [c ph]. destruct s as [o| |]; cbn [run_step rs_phase rs_cache].
+  destruct st as [c ph]. destruct s as [o| | |tb]; cbn [run_step rs_phase rs_cache].
   - destruct (cache_op c o) as [[c' fd] cr].
     destruct ph; cbn [fst snd]; try (cbn; tauto). apply stream_feed_allowed.
   - destruct ph; cbn [fst snd]; try (cbn; tauto). apply subscribe_allowed.
   - destruct ph; cbn [fst snd]; try (cbn; tauto). apply send_filter_allowed.
+  - cbn; tauto.
 Qed.
 
 (** every update or delete response ever sent -- initial snapshot, poll
@@ -692,7 +697,7 @@ Lemma run_step_acl allow u rq st s :
    send_filter allow (ACLUser (Some u)) (snd (fst (run_step allow NoACL rq st s))),
    snd (run_step allow NoACL rq st s)).
 Proof.
-  intros Hadm. destruct st as [c ph]. destruct s as [o| |]; cbn [run_step rs_phase rs_cache].
+  intros Hadm. destruct st as [c ph]. destruct s as [o| | |tb]; cbn [run_step rs_phase rs_cache].
   - destruct (cache_op c o) as [[c' fd] cr].
     destruct ph; cbn [fst snd]; try reflexivity.
     rewrite stream_feed_acl. cbn [fst snd]. reflexivity.
@@ -700,6 +705,7 @@ Proof.
     rewrite (subscribe_acl allow u c rq Hadm). reflexivity.
   - destruct ph; cbn [fst snd]; try reflexivity.
     now rewrite send_filter_noacl.
+  - reflexivity.
 Qed.
 
 (** completeness: with the ACL the user receives exactly the responses of the
